@@ -672,7 +672,7 @@ def r11_command_line_counts(chk, prog):
             chk.check(not v, 'R11', f.name, 'a value read from the command line is counted against the cardinality '
                       '(ignore_cardinality is false in read mode commandLine)', f.loc(c),
                       'for mReadMode == commandLine the argument expression yields %s' % v)
-    chk.require(n >= 2, 'assignValue call sites in Handler: %d' % n)
+    chk.require(n >= 1, 'assignValue call sites in Handler: %d' % n)
 
 
 def r12_value_mode_table(chk, prog):
